@@ -63,37 +63,53 @@ func AmountFromFloat64(val float64, exp uint32) Amount {
 func AmountFromString(val string) (Amount, error) {
 	a := Amount{}
 	n := strings.HasPrefix(val, "-")
-	x := strings.Split(strings.TrimPrefix(val, "-"), ".")
+	x := strings.Split(val, ".")
 	l := len(x)
 	if l > 2 {
 		return a, fmt.Errorf("amount must contain 0 or 1 decimal separators: %v", val)
 	}
 
-	// Parse the "major" part
+	// Parse the "major" part together with its sign, so that the complete
+	// int64 range can be read. Only a single leading "-" is allowed.
 	v, err := strconv.ParseInt(x[0], 10, 64)
 	if err != nil {
 		return a, fmt.Errorf("invalid major number '%v', %w", val, err)
 	}
+	if x[0][0] == '+' {
+		return a, fmt.Errorf("invalid major number '%v', unexpected sign", val)
+	}
 	e := uint32(0)
-	v2 := int64(0)
 
 	// Parse the decimal places (if present)
 	if l == 2 {
-		v2, err = strconv.ParseInt(x[1], 10, 64)
+		v2, err := strconv.ParseInt(x[1], 10, 64)
 		if err != nil {
 			return a, fmt.Errorf("invalid decimal number '%v', %w", val, err)
 		}
+		if x[1][0] == '+' || x[1][0] == '-' {
+			return a, fmt.Errorf("invalid decimal number '%v', unexpected sign", val)
+		}
+		if len(x[1]) > 18 {
+			return a, fmt.Errorf("invalid decimal number '%v', too many decimal places", val)
+		}
 		e = uint32(len(x[1]))
-		v = v * intPow(10, e)
+		if n {
+			v2 = -v2
+		}
+		// v*10^e + v2 must fit inside an int64
+		p := intPow(10, e)
+		if v > math.MaxInt64/p || v < math.MinInt64/p {
+			return a, fmt.Errorf("invalid number '%v', value out of range", val)
+		}
+		v = v * p
+		if (v2 > 0 && v > math.MaxInt64-v2) || (v2 < 0 && v < math.MinInt64-v2) {
+			return a, fmt.Errorf("invalid number '%v', value out of range", val)
+		}
 		v += v2
 	}
 
 	// Prepare the result
-	if n {
-		a.value = -v
-	} else {
-		a.value = v
-	}
+	a.value = v
 	a.exp = e
 	return a, nil
 }
@@ -303,11 +319,10 @@ func (a Amount) String() string {
 		s = "-"
 		v = -v
 	}
-	v1 := v / p
-	v2 := v - (v1 * p)
-	//if v2 < 0 {
-	//	v2 = -v2
-	//}
+	// the magnitude always fits in an uint64, also for math.MinInt64
+	u := uint64(v)
+	v1 := u / uint64(p)
+	v2 := u - (v1 * uint64(p))
 	return fmt.Sprintf("%s%d.%0*d", s, v1, a.exp, v2)
 }
 
